@@ -445,6 +445,24 @@ def _same(a, b):
     return bool(np.all((fa == fb) | (np.isnan(fa) & np.isnan(fb))))
 
 
+def _close(a, b, ref_values):
+    """equality up to floating-point noise: same shape, same NaN positions, finite entries within 1e-9 of the scale of the
+    replicates / estimate they were computed from (the limits are continuous functions of the replicates: a maintainer
+    who sums the BCa moments in another order changes last bits only), infinite entries equal"""
+    a, b = np.asarray(a), np.asarray(b)
+    if a.shape != b.shape:
+        return False
+    if a.size == 0:
+        return True
+    fa, fb = a.astype(float), b.astype(float)
+    rv = np.asarray(ref_values, dtype=float).reshape(-1)
+    rv = rv[np.isfinite(rv)]
+    scale = float(np.max(np.abs(rv))) if rv.size else 1.0
+    fin = np.isfinite(fa) & np.isfinite(fb)
+    ok = (np.isnan(fa) & np.isnan(fb)) | (~fin & (fa == fb)) | (fin & (np.abs(np.where(fin, fa - fb, 0.0)) <= 1e-9 * max(scale, 1e-300)))
+    return bool(np.all(ok))
+
+
 def _orat(x):
     x = float(x)
     return "nan" if math.isnan(x) else q(x)
@@ -587,7 +605,7 @@ def build(inp) -> Case:
         return common.call(utils.bootstrap_ci, theta=theta, theta_hat=est, alpha=alpha, method=meth)
 
     def check_ci(ci_res, theta, what, meth=method):
-        """shape and exact equality with utils.bootstrap_ci(rows, metric(original)); returns ci or None"""
+        """shape and equality (up to float noise, see _close) with utils.bootstrap_ci(rows, metric(original)); returns ci or None"""
         evals[0] += 2
         ref = reference_ci(theta, meth)
         if ci_res[0] == "exc":
@@ -604,7 +622,8 @@ def build(inp) -> Case:
         if ci.shape != mshape + (2,):
             fail("ci-shape", f"{what} shape {ci.shape}, expected {mshape + (2,)}", "boot/ci/shape")
             return None
-        if ref[0] == "ok" and not _same(ci, ref[1]):
+        if ref[0] == "ok" and not _close(ci, ref[1], np.concatenate([np.asarray(theta, dtype=float).reshape(-1),
+                                                                      np.asarray(est, dtype=float).reshape(-1)])):
             fail("ci-formula", f"{what} = {_short(ci)} but utils.bootstrap_ci(theta=rows, theta_hat=metric(original)="
                  f"{_short(est, 6)}, alpha={alpha}, method={meth}) = {_short(ref[1])}", f"boot/ci/{meth}/estimate-or-rows")
         return ci
